@@ -58,6 +58,8 @@ def run(ctx):
         adts = {u.member.adt for u in units}
         with ctx.renamed({"C02.OWN": "C06.OWN"}):
             c02.rule_own(ctx, M, only=lambda cp: cp in adts)
+        from . import common as _cm
+        ctx.require(_cm.rule_pin_utils(ctx, M, "C06.SCAN") >= 1, "utils::pin helpers")
         n = joinlike.rule_ext(ctx, M, "future::futures_ext::FutureExt", "race", "race", "C06.EXT")
         ctx.require(n >= 1, "FutureExt::race")
         na = 1 if base(cfg) == "core" else 2
